@@ -169,8 +169,9 @@ fn f6(thorough: bool) -> Vec<(Vec<u8>, u64, bool)> {
     let z = zlib(&term);
     let mk = |declared: u32, zb: &[u8]| -> Vec<u8> { let mut b = vec![131, 80]; b.extend_from_slice(&declared.to_be_bytes()); b.extend_from_slice(zb); b };
     for declared in [0u32, 1, 1004, 1005, 1006, 2000, 99_999_999, 100_000_000, 100_000_001, u32::MAX] {
+        // what may be inflated is what the stream holds, but never more than the input declares
         let inf = inflate_len(&z, 1 << 30);
-        out.push((mk(declared, &z), inf, inf > declared as u64));
+        out.push((mk(declared, &z), inf.min(declared as u64), inf > declared as u64));
     }
     // corrupt / truncated streams
     for cut in [0usize, 1, 2, z.len() / 2, z.len() - 1] { out.push((mk(1005, &z[..cut]), inflate_len(&z[..cut], 1 << 30), false)); }
@@ -180,8 +181,9 @@ fn f6(thorough: bool) -> Vec<(Vec<u8>, u64, bool)> {
     let mut t = vec![109]; t.extend_from_slice(&((big - 5) as u32).to_be_bytes()); t.resize(big, 0);
     let zb = zlib(&t);
     out.push((mk(big as u32, &zb), big as u64, false));
-    out.push((mk(1000, &zb), big as u64, true));
-    out.push((mk(0, &zb), big as u64, true));
+    out.push((mk(1000, &zb), 1000, true));
+    out.push((mk(0, &zb), 0, true));
+    for declared in [8u32, 65_536, 1 << 20] { out.push((mk(declared, &zb), declared as u64, true)); }
     // nested compressed
     let mut inner = vec![80]; inner.extend_from_slice(&1005u32.to_be_bytes()); inner.extend_from_slice(&z);
     let z2 = zlib(&inner);
@@ -310,6 +312,25 @@ pub fn run(rep: &Report) -> serde_json::Value {
                 }
             }
         }
+    }
+    // F11: maps of two keys over list-shaped and other keys in unusual but admissible encodings (the decoder compares keys
+    // while it builds the map)
+    {
+        let keys: Vec<Vec<u8>> = vec![
+            vec![106], vec![108, 0, 0, 0, 0, 106], vec![107, 0, 0], vec![107, 0, 2, 1, 2], vec![108, 0, 0, 0, 2, 97, 1, 97, 2, 106], vec![108, 0, 0, 0, 1, 97, 1, 97, 2],
+            vec![108, 0, 0, 0, 1, 97, 1, 108, 0, 0, 0, 1, 97, 2, 106], vec![108, 0, 0, 0, 1, 97, 1, 108, 0, 0, 0, 1, 97, 2, 97, 3], vec![108, 0, 0, 0, 1, 97, 1, 108, 0, 0, 0, 0, 97, 3],
+            vec![108, 0, 0, 0, 0, 97, 3], vec![108, 0, 0, 0, 1, 97, 1, 107, 0, 1, 2], vec![108, 0, 0, 0, 1, 97, 1, 108, 0, 0, 0, 0, 106], vec![108, 0, 0, 0, 2, 97, 1, 97, 2, 109, 0, 0, 0, 0],
+            vec![108, 0, 0, 0, 1, 97, 1, 77, 0, 0, 0, 1, 3, 0xa0], vec![104, 0], vec![104, 1, 106], vec![97, 1], vec![98, 0, 0, 0, 1], vec![110, 1, 0, 1], vec![70, 0x3f, 0xf0, 0, 0, 0, 0, 0, 0],
+            vec![109, 0, 0, 0, 1, 1], vec![77, 0, 0, 0, 1, 8, 1], vec![119, 1, b'a'], vec![116, 0, 0, 0, 0], vec![116, 0, 0, 0, 1, 106, 106],
+        ];
+        for a in &keys { for b in &keys {
+            let mut m = vec![131u8, 116, 0, 0, 0, 2];
+            m.extend_from_slice(a); m.extend_from_slice(&[97, 1]); m.extend_from_slice(b); m.extend_from_slice(&[97, 2]);
+            for &e in &[0u8, 1, 2, 10] { inputs.push(Input { family: "F11-two-key-maps", entry: e, bytes: m.clone(), inflated: 0, over_declared: false, depth: 0 }); }
+            // and as a set-like list of the two keys inside a tuple key
+            let mut t = vec![131u8, 116, 0, 0, 0, 2, 104, 1]; t.extend_from_slice(a); t.extend_from_slice(&[97, 1, 104, 1]); t.extend_from_slice(b); t.extend_from_slice(&[97, 2]);
+            inputs.push(Input { family: "F11-two-key-maps", entry: 0, bytes: t, inflated: 0, over_declared: false, depth: 0 });
+        } }
     }
     // large inputs last in each shard would serialise; sort by size so shards are balanced
     let order: Vec<usize> = { let mut o: Vec<usize> = (0..inputs.len()).collect(); o.sort_by_key(|&i| (i % 16, inputs[i].bytes.len())); o };
